@@ -66,8 +66,8 @@ def bounded_cases(ctx: Ctx):
     chunkings = list(compositions(n))
     # (a) infinities are data
     al = [float("inf"), float("-inf"), float("nan"), 1.0, -2.0]
-    for func in ("min", "max", "nanmin", "nanmax"):
-        for pat in gen.sample(pats, 12 if ctx.quick else 50, rng):
+    for func in ("min", "max", "nanmin", "nanmax", "sum", "nansum", "prod", "nanprod", "mean", "nanmean"):
+        for pat in gen.sample(pats, (12 if ctx.quick else 50) if func in ("min", "max", "nanmin", "nanmax") else (5 if ctx.quick else 20), rng):
             lab = gen.labels_to_array(pat)
             for rep in range(4):
                 i += 1
@@ -127,7 +127,7 @@ def run(ctx: Ctx):
     if getattr(ctx, "only", None) != "proof":
         run_bounded(
             ctx, "C20.rtc.inf_and_width", FUNCTION, bounded_cases(ctx), "vlib.props.C20:check",
-            bound="(a) arrays over {+Inf,-Inf,NaN,1,-2} for min/max/nanmin/nanmax on all 5 engines, eager and chunked; (b) int8/uint8/int16/uint16/int32/uint32 arrays whose group totals/products exceed the input width but fit the result dtype, sum/nansum/prod/nanprod/mean/count/var on all engines and strategies",
+            bound="(a) arrays over {+Inf,-Inf,NaN,1,-2} for min/max/nanmin/nanmax (and sum/prod/mean with their nan- variants: an infinity is a value, never replaced by a finite stand-in) on all 5 engines, eager and chunked; (b) int8/uint8/int16/uint16/int32/uint32 arrays whose group totals/products exceed the input width but fit the result dtype, sum/nansum/prod/nanprod/mean/count/var on all engines and strategies",
             rule="postcondition: NumPy on the members (extreme = +-Inf kept; integer totals exact in the advertised dtype); chunked == eager; non-trivial = contains an infinity or a total beyond the input width",
             nontrivial=lambda c: True,
         )
